@@ -379,6 +379,7 @@ func scenarios() []scenario {
 	get := func(p string) SOp { return SOp{K: "getval", P: P(p)} }
 	qry := func(p string) SOp { return SOp{K: "query", P: P(p)} }
 	hold := func(p string, v int64) SOp { return SOp{K: "hold", P: P(p), V: v} }
+	qerr := func(p string, k int64) SOp { return SOp{K: "queryerr", P: P(p), V: k} }
 	return []scenario{
 		{"upgrade-2", []SOp{add("a/b/x", 1), add("a/b/y", 2)}, nil, 40, 40},
 		{"upgrade-3", []SOp{add("a/b/x", 1), add("a/b/y", 2), add("a/b/z", 3)}, nil, 120, 2000},
@@ -395,6 +396,11 @@ func scenarios() []scenario {
 		{"query-park-2", []SOp{add("a/b", 1), add("c", 2), qry("a/*"), add("a/d/e", 3), del("*"), get("c")}, []int{0, 0, 1, 1}, 80, 3000},
 		{"query-park-add", []SOp{add("a/b", 1), qry("a/b"), add("a/b", 7), get("a/b"), del("a"), add("a/b", 8)}, []int{0, 0}, 80, 2000},
 		{"query-multi", []SOp{add("a/b", 1), add("a/c", 2), add("a/d/e", 3), qry("a/*"), add("a/f", 4), del("a/c"), qry("")}, []int{0, 0, 1, 1, 2, 2, 2}, 80, 2000},
+		// a visitor that returns an error: every read lock must be released on the
+		// way out, so the writers that follow (also strictly sequentially) return
+		{"queryerr-literal", []SOp{add("a/b", 1), add("a/c", 2), qerr("a/b", 0), del("a"), add("a/d", 3), get("a/c")}, []int{0, 0, 1, 1}, 60, 1000},
+		{"queryerr-glob", []SOp{add("a/b", 1), add("a/c", 2), qerr("a/*", 0), add("a/e", 5), del("x"), qry("a/*")}, []int{0, 0, 1, 1}, 80, 2000},
+		{"queryerr-second", []SOp{add("a/b/c", 1), add("a/b/d", 2), qerr("a/b/*", 1), add("a/b/e", 3), del("a/b/c"), qerr("", 0)}, []int{0, 0, 1, 1}, 80, 2000},
 		{"two-holds-get", []SOp{add("a/b", 1), hold("a/b", 5), get("a/b"), del("a"), hold("a/b", 6)}, []int{0, 0}, 60, 2000},
 		{"hold-get-add", []SOp{add("a/b", 1), add("a/c", 2), hold("a/b", 5), get("a/b"), add("a/b", 7), get("a/c"), del("a/b")}, []int{0, 0, 1, 1}, 80, 3000},
 		{"two-deleters", []SOp{add("a/b", 1), add("a/c/d", 2), del("a/b"), del("a"), add("a/c/e", 3)}, []int{0, 0}, 80, 3000},
@@ -404,7 +410,9 @@ func scenarios() []scenario {
 var randOps = func(r *vh.Rand) SOp {
 	paths := []string{"a", "a/b", "a/b/c", "a/c", "a/b/d", "d", "d/e"}
 	p := P(paths[r.Intn(len(paths))])
-	switch r.Pick(50, 12, 10, 18, 10) {
+	switch r.Pick(50, 12, 10, 18, 10, 8) {
+	case 5:
+		return SOp{K: "queryerr", P: p, V: int64(r.Intn(2))}
 	case 0:
 		return SOp{K: "add", P: p, V: int64(1 + r.Intn(9))}
 	case 1:
